@@ -86,7 +86,7 @@ PROPS = {
         ]),
     'C08': dict(
         witness=[dict(append_to='tonic/src/metadata/map.rs', module='replay/metadata_witness.rs', crate='tonic', filter='verif_witness_metadata')],
-        units=['metadata', 'reqresp', 'status', 'clientglue', 'serverglue', 'b64cfg'], level='proof',
+        units=['metadata', 'reqresp', 'status', 'errmap', 'clientglue', 'serverglue', 'b64cfg'], level='proof',
         not_covered=[
             'value preservation rests on the assumed http::HeaderMap multimap contract (A-http-20..28) and the base64 inverse axioms (A-b64-01: both engines decode padded and unpadded input); the two engine constants of tonic/src/util.rs are checked against that assumption in unit b64cfg (standard alphabet; STANDARD pads, STANDARD_NO_PAD does not; both decode padded and unpadded input)',
             'end-to-end transport of the header block (hyper/h2/hpack)',
